@@ -262,6 +262,31 @@ fn generate(cli: &Cli) -> (Vec<Case>, Vec<String>) {
             None => problems.push("silent-client base: no timeout Disconnect in the baseline".into()),
         }
     }
+    // F15: a status service that takes its time, and a client that sends its Ping without waiting
+    // for the Status Response, in a segment of its own that arrives while the service is still
+    // asked: same Status Response, same Pong as for the client that waits
+    {
+        let spec = BaseSpec { name: "status-slow-service", intent: Intent::Status, secret: false, lat: [0, 0, 0], extras: vec![], no_target: false, ci_delay_ms: 0 };
+        let mut base = build_base(&spec, cli.seed ^ 0xf15);
+        base.adapters.status_latency = Duration::from_secs(2);
+        for gap_ms in [0u64, 1, 500, 1_900] {
+            let mut v = base.clone();
+            let mut script = vec![];
+            for a in &base.client.script {
+                match a {
+                    Act::AwaitPkt { .. } => {}
+                    Act::Send { label, .. } if label == "StatusPing" => {
+                        script.push(Act::Sleep(Duration::from_millis(gap_ms)));
+                        script.push(a.clone());
+                    }
+                    other => script.push(other.clone()),
+                }
+            }
+            v.client.script = script;
+            cases.push(Case { class: format!("status-slow-service/ping-{gap_ms}ms-behind-the-request"), shape: "read/pipelined-client/ping-while-status-service-is-asked".into(), base: base.clone(), variant: v });
+        }
+    }
+
     // F14: the transport delays Client Information by more than one or two keep-alive periods while
     // the client goes on echoing: the same frames, only later, lead to the same calls and the same
     // Transfer as when it arrives at once
@@ -364,6 +389,20 @@ fn generate(cli: &Cli) -> (Vec<Case>, Vec<String>) {
                     base: base.clone(),
                     variant: with_split(&base, sent.index, vec![(o, Duration::from_millis(200))]),
                 });
+            }
+            // the last step completes inside the frame and the rest of the frame comes much later (or
+            // never): routing is over, the Transfer does not wait for bytes nobody needs any more
+            if stage == 2 {
+                for o in [1usize, 2, len / 2, len - 1] {
+                    if o >= 1 && o < len {
+                        cases.push(Case {
+                            class: format!("race/{stage_name}-completes-inside/{fname}@{o}/rest-40s-later"),
+                            shape: format!("read/{stage_name}-completes-inside-frame-rest-much-later/{fname}"),
+                            base: base.clone(),
+                            variant: with_split(&base, sent.index, vec![(o, Duration::from_secs(40))]),
+                        });
+                    }
+                }
             }
             // three segments: the length prefix (and a bit), a part of the body, the rest — the
             // completion lands between the second and the third (frame starts 100 ms earlier:
